@@ -226,6 +226,16 @@ def c12_retry(cls, args):
             saved = exc
 
 
+# two byte-identical functions (same name, body, first line) living in
+# different files: code objects that compare equal although they are not the
+# same code
+_TWIN_SRC = 'def c12_raise_here(cls, args):\n    raise cls(*args)\n'
+_TWIN_A, _TWIN_B = {}, {}
+exec(compile(_TWIN_SRC, '/c12/vendored_a/raiser.py', 'exec'), _TWIN_A)
+exec(compile(_TWIN_SRC, '/c12/vendored_b/raiser.py', 'exec'), _TWIN_B)
+_REAL = {}
+
+
 def build_einfo(clsname, argi, depth):
     """Raise through a real call chain and build ExceptionInfo() inside the
     except block (what workloop does).  Returns (einfo, caught type, caught
@@ -236,16 +246,32 @@ def build_einfo(clsname, argi, depth):
         except BaseException as exc:
             ei = _make_einfo()
             caught = (type(exc), exc.args, real_tb_len(exc.__traceback__))
+            _REAL['shape'] = tb_shape(exc.__traceback__)
         if caught[0] is not RecursionError or caught[2] < LIMIT + 100:
             raise HarnessBug('runaway recursion gave %r' % (caught,))
         return (ei,) + caught + (RUNAWAY,)
     cls, args = CLASSES[clsname], ARGS[argi]
+    if depth == 'twin':
+        # an earlier failure went through the twin in file A; this one goes
+        # through the twin in file B
+        try:
+            _TWIN_A['c12_raise_here'](cls, args)
+        except BaseException:          # noqa
+            _make_einfo()
+        try:
+            _TWIN_B['c12_raise_here'](cls, args)
+        except BaseException as exc:   # noqa
+            ei = _make_einfo()
+            caught = (type(exc), exc.args, real_tb_len(exc.__traceback__))
+            _REAL['shape'] = tb_shape(exc.__traceback__)
+        return (ei,) + caught + (RAISER,)
     if depth == 'retry':
         try:
             c12_retry(cls, args)
         except BaseException as exc:   # noqa
             ei = _make_einfo()
             caught = (type(exc), exc.args, real_tb_len(exc.__traceback__))
+            _REAL['shape'] = tb_shape(exc.__traceback__)
         if caught[:2] != (cls, args):
             raise HarnessBug('retry case produced %r' % (caught,))
         return (ei,) + caught + (RAISER,)
@@ -255,6 +281,7 @@ def build_einfo(clsname, argi, depth):
     except BaseException as exc:
         ei = _make_einfo()
         caught = (type(exc), exc.args, real_tb_len(exc.__traceback__))
+        _REAL['shape'] = tb_shape(exc.__traceback__)
     if caught != (cls, args, depth + 1):
         raise HarnessBug('case %r produced %r' % (
             (clsname, argi, depth), caught))
@@ -277,6 +304,16 @@ def run_a(case, picklers=None, verbose=False):
                                      case=list(case), path=[]))])
     obs0, msgs = check_record(ei, etype, eargs, fn, 'n=0')
     evals[0] += 1
+    if obs0 is not None:
+        # the picklable stand-in describes the real traceback: same file,
+        # function and line, entry by entry, up to where it is cut off
+        for i, (got, real) in enumerate(zip(obs0['shape'], _REAL['shape'])):
+            if got[0] == '_Truncated':
+                break
+            if got[1:] != real[1:]:
+                msgs.append('n=0: entry %d of einfo.tb is %r, the real '
+                            'traceback has %r there' % (i, got[1:], real[1:]))
+                break
     viol += [(m, []) for m in msgs]
     causes = {}
     seen = set()          # (type name, number of args) read back, all n
@@ -333,6 +370,7 @@ def cases_a():
            for d in DEPTHS_A]
     out.append(('RecursionError', None, 'rec'))
     out += [(c, a, 'retry') for c in CLASSES for a in range(len(ARGS))]
+    out += [(c, 1, 'twin') for c in ('ValueError', 'C12Base')]
     return out
 
 
@@ -342,7 +380,28 @@ class C12Unreducible:
         raise RuntimeError('c12: this object refuses to be pickled')
 
 
+class C12UnreducibleOS:
+    def __reduce__(self):
+        raise FileNotFoundError(2, 'c12: no such file', '/nonexistent/c12')
+
+
+class C12UnreducibleEOF:
+    def __reduce__(self):
+        raise EOFError('c12: ran out of input while pickling')
+
+
+class C12UnreducibleValue:
+    def __reduce__(self):
+        raise ValueError('c12: value cannot be pickled')
+
+
 def _leaf(kind):
+    if kind == 'reduce-os':
+        return C12UnreducibleOS()
+    if kind == 'reduce-eof':
+        return C12UnreducibleEOF()
+    if kind == 'reduce-value':
+        return C12UnreducibleValue()
     if kind == 'lambda':
         return lambda: 0
     if kind == 'tlock':
@@ -354,7 +413,8 @@ def _leaf(kind):
     raise HarnessBug(kind)
 
 
-LEAVES = ['lambda', 'tlock', 'block', 'reduce']
+LEAVES = ['lambda', 'tlock', 'block', 'reduce', 'reduce-os', 'reduce-eof',
+          'reduce-value']
 
 
 def build_unpicklable(kind, shape):
@@ -605,6 +665,18 @@ def run_b(syms, verbose=False):
                         raise ValueError('type became %r' % (again.type,))
                     traceback.format_exception(again.type, again.exception,
                                                again.tb)
+                    # type, arguments, text and traceback object unchanged
+                    # by further round trips (this record too)
+                    o1, o2 = observe(ei), observe(again)
+                    for key in COMPARED:
+                        if o1[key] != o2[key]:
+                            ok = False
+                            viol.append(
+                                '%s: %s of the MaybeEncodingError record '
+                                'changed in one more round trip via %s: %s '
+                                '-> %s' % (tag, key, pk, _brief(o1[key]),
+                                           _brief(o2[key])),)
+                            break
                 except BaseException as exc:
                     ok = False
                     viol.append('%s: the MaybeEncodingError record does not '
